@@ -698,10 +698,10 @@ func (e *Engine) convert(f *frame, x *ssa.Convert) Val {
 	case isString(to) && isByteSlice(from):
 		// string(b): immutable snapshot of the bytes
 		ref := e.snapshotBytes(f.st, v)
-		return Val{T: to, C: []*smt.Term{ref, X.Const(0, 64), v.ln()}}
+		return Val{T: to, C: []*smt.Term{ref, v.off(), v.ln()}}
 	case isByteSlice(to) && isString(from):
 		ref := e.snapshotBytes(f.st, Val{T: to, C: []*smt.Term{v.C[0], v.C[1], v.C[2], v.C[2]}})
-		return Val{T: to, C: []*smt.Term{ref, X.Const(0, 64), v.C[2], v.C[2]}}
+		return Val{T: to, C: []*smt.Term{ref, v.C[1], v.C[2], v.C[2]}}
 	}
 	if _, ok := to.Underlying().(*types.Pointer); ok {
 		if _, ok := from.Underlying().(*types.Pointer); ok {
@@ -722,21 +722,22 @@ func isByteSlice(t types.Type) bool {
 	return ok && b.Kind() == types.Uint8
 }
 
-// snapshotBytes allocates a fresh byte object whose first len bytes equal the slice's.
+// snapshotBytes allocates a fresh array object equal to the slice's whole backing array (the
+// caller keeps the slice's offset).
 func (e *Engine) snapshotBytes(st *State, s Val) *smt.Term {
+	// the whole backing array is copied (every component of the element type); the snapshot keeps
+	// the slice's offset
 	X := e.X
-	key := "arr:uint8/"
-	h := e.heap(st, key, smt.BV(8))
-	src := X.Select(h, s.ref())
-	ref := e.newRef(st)
-	var dst *smt.Term
-	if s.off().IsConst() && s.off().V == 0 {
-		dst = src
-	} else {
-		j := X.BVar("sj", IntSort)
-		dst = X.Lambda(j, X.Select(src, X.BVAdd(s.off(), j)))
+	sl, ok := s.T.Underlying().(*types.Slice)
+	if !ok {
+		bail("verifSnap of %s", s.T)
 	}
-	e.setHeap(st, key, X.Store(h, ref, dst))
+	ref := e.newRef(st)
+	for _, c := range comps(sl.Elem()) {
+		key := "arr:" + typeKey(sl.Elem()) + "/" + c.Suffix
+		h := e.heap(st, key, c.Sort)
+		e.setHeap(st, key, X.Store(h, ref, X.Select(h, s.ref())))
+	}
 	return ref
 }
 
